@@ -228,6 +228,10 @@ class FitYamlReader(YamlReaderMixin, FitDReprBase):
         _fit_kwargs = dict(minimizer=_minimizer, minimizer_kwargs=_minimizer_kwargs)
         if _cost_function is not None:
             _fit_kwargs["cost_function"] = _cost_function
+        if _fit_type == "histogram" and _read_parametric_model is not None:
+            # the fit rebuilds its model from these when its data is replaced
+            _fit_kwargs["bin_evaluation"] = _read_parametric_model.bin_evaluation
+            _fit_kwargs["density"] = _read_parametric_model.density
         if _fit_type != "custom":
             _fit_object = _class(_data, _read_model_function, **_fit_kwargs)
         else:
